@@ -49,7 +49,8 @@ type server struct {
 	auth  bool
 }
 
-var srvs [2]*server
+// API instances: basic auth off/on x request tracing off/on
+var srvs [4]*server
 
 const user, pass = "verif-user", "verif-pass"
 const user2, pass2 = "second", "p2"
@@ -63,7 +64,7 @@ func freePort() int {
 	return l.Addr().(*net.TCPAddr).Port
 }
 
-func startServer(auth bool) *server {
+func startServer(auth, tracing bool) *server {
 	port := freePort()
 	cfg := &rest.Config{}
 	cfg.Default()
@@ -72,6 +73,7 @@ func startServer(auth bool) *server {
 	if auth {
 		cfg.BasicAuthCredentials = map[string]string{user: pass, user2: pass2}
 	}
+	cfg.Tracing = tracing
 	a, err := rest.NewAPI(context.Background(), cfg)
 	if err != nil {
 		panic(err)
@@ -90,8 +92,10 @@ func startServer(auth bool) *server {
 }
 
 func TestMain(m *testing.M) {
-	srvs[0] = startServer(false)
-	srvs[1] = startServer(true)
+	srvs[0] = startServer(false, false)
+	srvs[1] = startServer(true, false)
+	srvs[2] = startServer(false, true)
+	srvs[3] = startServer(true, true)
 	code := m.Run()
 	ev.Flush()
 	os.Exit(code)
@@ -261,12 +265,12 @@ func setCred(req *http.Request, cred string) {
 	}
 }
 
-const ruleAdd = "raw POST /add requests against the two API instances: a multipart body with one file of 0-3000 drawn bytes (or a body that is not multipart), each add option absent, valid, or (at most one) invalid: values the query parser must reject (layout, format, booleans, cid-version, replication factor, expire-in) or values that decode but cannot be honoured (unknown hash function or chunker, format=car with a body that is not a CAR, sha2-512 with CID version 0); stream-channels true or false; credentials as in the raw leg; oracle: 401 and no RPC without valid credentials; 4xx, no RPC and one JSON document for what the parser must reject; for values that cannot be honoured no Cluster.Pin, and either (buffered) an error status with exactly one JSON document or (streamed) status 200 with the error in the X-Stream-Error trailer and a body that is a sequence of JSON objects; for a valid request status 200, exactly one Cluster.Pin of the last reported CID with the name and factors sent, and a body that is one JSON array (buffered) or a sequence of objects (streamed); non-trivial = an invalid element or stream-channels=false or >= 3 options; distinct by request"
+const ruleAdd = "raw POST /add requests against the four API instances: a multipart body with one file of 0-3000 drawn bytes (or a body that is not multipart), each add option absent, valid, or (at most one) invalid: values the query parser must reject (layout, format, booleans, cid-version, replication factor, expire-in) or values that decode but cannot be honoured (unknown hash function or chunker, format=car with a body that is not a CAR, sha2-512 with CID version 0); stream-channels true or false; credentials as in the raw leg; oracle: 401 and no RPC without valid credentials; 4xx, no RPC and one JSON document for what the parser must reject; for values that cannot be honoured no Cluster.Pin, and either (buffered) an error status with exactly one JSON document or (streamed) status 200 with the error in the X-Stream-Error trailer and a body that is a sequence of JSON objects; for a valid request status 200, exactly one Cluster.Pin of the last reported CID with the name and factors sent, and a body that is one JSON array (buffered) or a sequence of objects (streamed); non-trivial = an invalid element or stream-channels=false or >= 3 options; distinct by request"
 
 func TestAddRaw(t *testing.T) {
 	leg := ev.L("raw-add", ruleAdd)
 	rapid.Check(t, func(t *rapid.T) {
-		s := srvs[rapid.IntRange(0, 1).Draw(t, "server")]
+		s := srvs[rapid.IntRange(0, 3).Draw(t, "server")]
 		s.rec.Reset()
 		// blocks go to the local IPFS connector; Pin answers with the pin it got
 		s.rec.Set("Cluster.BlockAllocate", func(interface{}) (interface{}, error) { return []peer.ID{""}, nil })
@@ -482,12 +486,12 @@ func TestAddRaw(t *testing.T) {
 // parserBuffered says whether the query asks for a buffered answer.
 func parserBuffered(q url.Values) bool { return q.Get("stream-channels") == "false" }
 
-const ruleRaw = "raw HTTP requests against two real API instances (with and without basic-auth credentials): a route of the route table with valid or invalid path variables (CID v0/v1, truncated CID, text, peer ID, ipfs/ipns/ipld paths with sub-segments containing space, ?, #, %, unicode), each pin option present or absent with a valid or (one) invalid value, bodies for POST /peers, status filters, local flags; or an unknown path / wrong method; credentials (two users configured) none, wrong user, wrong password, unknown or known or empty user with an empty password, one user's name with the other's password, a garbage or non-basic Authorization header, right; oracle from the harness's own parse of what it sent: 401 and no RPC without valid credentials, 4xx and no RPC for any malformed element, otherwise exactly the named RPC with the CID/path and options sent; body is one JSON document; non-trivial = at least one option and (exactly one malformed element, or fully valid with >= 3 options); distinct by request line + credentials"
+const ruleRaw = "raw HTTP requests against four real API instances (with and without basic-auth credentials, with and without request tracing): a route of the route table with valid or invalid path variables (CID v0/v1, truncated CID, text, peer ID, ipfs/ipns/ipld paths with sub-segments containing space, ?, #, %, unicode), each pin option present or absent with a valid or (one) invalid value, bodies for POST /peers, status filters, local flags; or an unknown path / wrong method; credentials (two users configured) none, wrong user, wrong password, unknown or known or empty user with an empty password, one user's name with the other's password, a garbage or non-basic Authorization header, right; oracle from the harness's own parse of what it sent: 401 and no RPC without valid credentials, 4xx and no RPC for any malformed element, otherwise exactly the named RPC with the CID/path and options sent; body is one JSON document; non-trivial = at least one option and (exactly one malformed element, or fully valid with >= 3 options); distinct by request line + credentials"
 
 func TestRaw(t *testing.T) {
 	leg := ev.L("raw-requests", ruleRaw)
 	rapid.Check(t, func(t *rapid.T) {
-		s := srvs[rapid.IntRange(0, 1).Draw(t, "server")]
+		s := srvs[rapid.IntRange(0, 3).Draw(t, "server")]
 		s.rec.Reset()
 		cred := rapid.SampledFrom(credKinds).Draw(t, "cred")
 		route := rapid.SampledFrom([]string{"pin", "pin", "pinpath", "unpin", "unpinpath", "status", "statusall", "recover", "recoverall", "allocation", "allocations", "peeradd", "peerrm", "metrics", "simple", "unknown", "wrongmethod"}).Draw(t, "route")
@@ -808,7 +812,7 @@ func TestClient(t *testing.T) {
 	leg := ev.L("client-library", ruleClient)
 	ctx := context.Background()
 	rapid.Check(t, func(t *rapid.T) {
-		s := srvs[rapid.IntRange(0, 1).Draw(t, "server")]
+		s := srvs[rapid.IntRange(0, 3).Draw(t, "server")]
 		s.rec.Reset()
 		c := newClient(s, t)
 		method := rapid.SampledFrom([]string{"ID", "Peers", "PeerAdd", "PeerRm", "Pin", "Pin", "Unpin", "PinPath", "PinPath", "UnpinPath", "Allocations", "Allocation", "Status", "StatusAll", "StatusAll", "Recover", "RecoverAll", "Alerts", "Version", "GetConnectGraph", "Metrics", "MetricNames", "RepoGC"}).Draw(t, "method")
